@@ -610,7 +610,10 @@ class Exec(object):
     def s_Assert(self, s, st, ctx):
         # only lemma units contain asserts we care about; repo asserts are `sys.version_info` checks
         if ctx.unit is not None and getattr(ctx.unit, "is_lemma", False):
-            c = self.truth(self.eval(s.test, st, ctx), st)
+            uses_spec = any(isinstance(n, ast.Call) and isinstance(n.func, ast.Name) and n.func.id in BI.SPEC_FUNCS
+                            for n in ast.walk(s.test))
+            actx = ctx.derive(spec=True, pre=st, raises=[], returns=[]) if uses_spec else ctx
+            c = self.truth(self.eval(s.test, st, actx), st)
             label = "assert@%d" % s.lineno
             if s.msg is not None and isinstance(s.msg, ast.Constant):
                 label = str(s.msg.value)
@@ -1176,7 +1179,7 @@ class Exec(object):
             return v2
         if s2.dead:
             return v1
-        return z3.If(c, v1, v2)
+        return ite_val(c, v1, v2)
 
     def e_BoolOp(self, e, st, ctx):
         is_and = isinstance(e.op, ast.And)
@@ -1196,6 +1199,12 @@ class Exec(object):
         if isinstance(e.op, ast.Not):
             return VBool(z3.Not(self.truth(v, st)))
         if isinstance(e.op, ast.USub):
+            if BI.static_tag(v) == "opq":
+                # -timedelta (the only opaque values the code negates): seconds negated (A2)
+                o = fresh("neg_td", I)
+                f = z3.Function("u_td_seconds", I, R)
+                self.assume(st, f(o) == -f(oid(v)))
+                return VOpq(o)
             self.raise_if(st, ctx, z3.Not(is_number(v)), "TypeError", node=e)
             return z3.If(is_Float(v), VFloat(-fval(v)), VInt(-as_int(v)))
         if isinstance(e.op, ast.UAdd):
